@@ -50,6 +50,18 @@ def h_cross(B, cls="CPCCA", n=4, p=2, q=2, k=2, alpha=1.0, cplx=False, metrics=T
     B.eq("Q1^H C_w Q2 == diag(singular values)", _H(Q1) @ Cw @ Q2, np.diag(np.ones(k)) * sv)
     B.eq("scores1 == whitened X projected on Q1", S1, Xw @ Q1)
     B.eq("scores2 == whitened Y projected on Q2", S2, Yw @ Q2)
+    # the whitening matrices the model used must whiten the oracle covariances (alpha = 0 fields)
+    al = alpha if isinstance(alpha, (list, tuple)) else [alpha, alpha]
+    if cls in ("CCA", "ComplexCCA"):
+        al = [0.0, 0.0]
+    elif cls in ("RDA", "ComplexRDA"):
+        al = [0.0, 1.0]
+    elif cls in ("MCA", "ComplexMCA"):
+        al = [1.0, 1.0]
+    for nm, a_, Zc, T_, pp in (("X", al[0], Xc, Tx, p), ("Y", al[1], Yc, Ty, q)):
+        if a_ == 0.0:
+            Cz = B.alias(_H(Zc) @ Zc / n)
+            B.eq(f"field {nm} (alpha=0): T^H C T == I for the oracle covariance C", _H(T_) @ Cz @ T_, np.eye(pp))
     B.ge("singular values non-negative", sv, np.zeros(k))
     if k > 1:
         B.ge("singular values descending", sv[:-1], sv[1:])
@@ -90,6 +102,7 @@ def configs(tier):
     add("h_cross", "CPCCA|alpha=0.5|p2q2", cls="CPCCA", alpha=0.5)
     add("h_cross", "CPCCA|alpha=[0.5,1.0]|p2q2", cls="CPCCA", alpha=[0.5, 1.0])
     add("h_cross", "ComplexMCA|p2q2", cls="ComplexMCA", cplx=True)
+    add("h_cross", "ComplexCCA|p2q2", cls="ComplexCCA", cplx=True, metrics=False)
     if tier == "thorough":
         add("h_cross", "CPCCA|alpha=[0.0,0.5]|p2q2", cls="CPCCA", alpha=[0.0, 0.5])
         add("h_cross", "CCA|p3q2", cls="CCA", p=3, q=2, n=5)
